@@ -118,6 +118,12 @@ func genMembershipPlan(seed uint64, tier string) *Plan {
 		c.DNSScript[n] = sc
 	}
 	c.Knobs = map[string]int{"steps": steps, "dnsPeriodMs": 2000}
+	if scheme == "udp" && g.chance(20) {
+		// while the resolver's notifications are handled, the socket for a new backend cannot be made now and then
+		// (EMFILE): that address stays out of the rotation; everything else is as resolved - above all, what was
+		// withdrawn in the same round is gone
+		c.Knobs["bindErrPct"] = g.pick2(15, 40)
+	}
 	if scheme == "tcp" {
 		for _, n := range names {
 			for _, ip := range dnsPool[n] {
@@ -188,6 +194,7 @@ func execMembership(t *testing.T, p *Plan) *Result {
 		}
 		pos := map[string]int{}
 		ambiguous := map[string]bool{}
+		bindFailed := false // a backend socket could not be made at some point: some resolved address may be missing
 		type pinnedDialog struct {
 			ids     dlgIDs
 			backend string
@@ -289,8 +296,10 @@ func execMembership(t *testing.T, p *Plan) *Result {
 					if len(ds) != 0 {
 						v("C19", "dispatch-to-removed-backend", step, sig, "after %s the model's rotation is empty but a request was sent to %v", step, ds)
 					}
-				case len(ds) != 1:
+				case len(ds) != 1 && !(bindFailed && len(ds) == 0):
 					v("C19", "dispatch-count", step, sig, "after %s (rotation %v) an unpinned request was sent %d time(s): %v", step, S, len(ds), ds)
+				case len(ds) == 0:
+					w.stat("dontcare:rotation-may-be-empty-after-bind-failure")
 				default:
 					targets = append(targets, ds[0])
 					in := false
@@ -308,6 +317,17 @@ func execMembership(t *testing.T, p *Plan) *Result {
 				seen := map[string]int{}
 				for _, t := range targets {
 					seen[t]++
+				}
+				if bindFailed {
+					// which of the resolved addresses are missing is not known: the rotation is over those that answer
+					w.stat("dontcare:resolved-address-may-be-missing-after-bind-failure")
+					var present []string
+					for _, s := range S {
+						if seen[s] > 0 {
+							present = append(present, s)
+						}
+					}
+					S = present
 				}
 				for _, s := range S {
 					if seen[s] == 0 {
@@ -328,7 +348,7 @@ func execMembership(t *testing.T, p *Plan) *Result {
 				}
 			}
 			// (b) attribution probe: an answer from another member's address pins the dialog to that member
-			if scheme == "udp" && len(S) > 0 {
+			if scheme == "udp" && len(S) > 0 && !bindFailed {
 				d.respScript = func(string, *sipwire.Msg, string) []respPlan { return nil } // the harness answers by hand
 				ids := dlgIDs{callID: "attr-" + step, fromURI: "sip:c@caller.test", toURI: "sip:svc@svc.example.com", fromTag: "af" + step, toTag: "at" + step, ruri: "sip:svc.example.com"}
 				inv := send("INVITE", ids, reqOpts{cseq: 1, noToTag: true})
@@ -393,7 +413,7 @@ func execMembership(t *testing.T, p *Plan) *Result {
 						open++
 					}
 				}
-				if open != len(S) {
+				if open != len(S) && !(bindFailed && open <= len(modelSet())) {
 					var locals []string
 					for _, s := range w.N.ProxyUDPSockets() {
 						locals = append(locals, s.Local.String())
@@ -426,8 +446,13 @@ func execMembership(t *testing.T, p *Plan) *Result {
 				}
 				w.stat("probe:dispatches-racing-with-the-poll")
 			}
+			w.N.F.UDPBindErrPct = c.Knobs["bindErrPct"]
 			w.K.Advance(2 * time.Second)
 			w.K.Settle(5 * time.Second)
+			w.N.F.UDPBindErrPct = 0
+			if w.N.Fired["udp-bind-emfile"] > 0 {
+				bindFailed = true
+			}
 			for _, n := range names {
 				got := w.N.DNS.ScriptPos(n)
 				if got != pos[n]+1 {
@@ -467,7 +492,7 @@ func execMembership(t *testing.T, p *Plan) *Result {
 						stays = stays || a == b
 					}
 				}
-				if len(ds) == 0 && stays {
+				if len(ds) == 0 && stays && !bindFailed {
 					ok = false // some backend was registered throughout: the request cannot have met an empty rotation
 				}
 				if !ok {
